@@ -905,7 +905,11 @@ def _cam_local_to_global(
     # zaxis = -desired camera direction, in global frame
     mat_3 = wp.normalize(cam_xpos_out[worldid, camid] - pos)
     # xaxis: orthogonal to zaxis and to (0,0,1)
-    mat_1 = wp.normalize(wp.cross(wp.vec3(0.0, 0.0, 1.0), mat_3))
+    mat_1 = wp.cross(wp.vec3(0.0, 0.0, 1.0), mat_3)
+    # camera looking along the world z-axis: fall back to the x-axis like mju_normalize3
+    if wp.length(mat_1) < MJ_MINVAL:
+      mat_1 = wp.vec3(1.0, 0.0, 0.0)
+    mat_1 = wp.normalize(mat_1)
     mat_2 = wp.normalize(wp.cross(mat_3, mat_1))
     # fmt: off
     cam_xmat_out[worldid, camid] = wp.mat33(
